@@ -134,3 +134,15 @@ Example C16_sorted_map_is_sorted :
   snd (run (pstep KMapSorted) [] [MIns ["c"%byte] (PInt 1); MIns ka (PInt 2); MIns kb (PInt 3); MKeys])
   = [OOpt None; OOpt None; OOpt None; OKeys [ka; kb; ["c"%byte]]].
 Proof. vm_compute. reflexivity. Qed.
+
+(* Array::sort_by / sort_by_key are STABLE sorts (Vec::sort_by): the refinement theorem C16_array covers
+   every comparator of the call vocabulary, among them `x mod 3` (VSortBy VMod3, VSortKey), under which
+   most elements tie; on 24 elements (std's unstable sort would already reorder ties above 20):
+   elements with the same residue keep their relative order *)
+Example C16_array_sort_with_ties_is_stable :
+  let l := [7; 3; 11; 9; 2; 16; 30; 4; 23; 12; 5; 19; 27; 8; 14; 21; 1; 25; 18; 10; 29; 6; 13; 24]%Z in
+  snd (run (vstep KArray) [] [VFrom l; VSortBy VMod3; VIter; VSortKey; VIter])
+  = [VOUnit; VOUnit; VOList [3; 9; 30; 12; 27; 21; 18; 6; 24; 7; 16; 4; 19; 1; 25; 10; 13; 11; 2; 23; 5; 8; 14; 29]%Z; VOUnit; VOList [3; 9; 30; 12; 27; 21; 18; 6; 24; 7; 16; 4; 19; 1; 25; 10; 13; 11; 2; 23; 5; 8; 14; 29]%Z]
+  /\ snd (run (vstep KArray) [] [VFrom l; VSortBy VMod3; VIter; VSortKey; VIter])
+     = snd (run (vref_step KArray) [] [VFrom l; VSortBy VMod3; VIter; VSortKey; VIter]).
+Proof. vm_compute. split; reflexivity. Qed.
